@@ -134,3 +134,112 @@ CONTRACTS.update({
         },
     ),
 })
+
+
+# ---------------------------------------------------------------------------
+# 2-D entry points
+# ---------------------------------------------------------------------------
+
+def dom2(k, d):
+    return ['{d} >= 1'.format(d=d), 'len({k}) >= 2 * {d} + 2'.format(k=k, d=d),
+            'forall(0, len({k}), 0, len({k}), lambda a, b: implies(a <= b, {k}[a] <= {k}[b]))'.format(k=k),
+            'forall({d}, len({k}) - {d} - 1, lambda a: {k}[a] < {k}[a + 1])'.format(k=k, d=d)]
+
+
+DOMAIN2 = dom2('kts1', 'deg1') + dom2('kts2', 'deg2') + [
+    'der1 == 0 or der1 == 1', 'der2 == 0 or der2 == 1',
+    'shape(coeffs)[0] >= len(kts1) - deg1 - 1', 'shape(coeffs)[1] >= len(kts2) - deg2 - 1']
+
+
+def spline2d(x, y, s1='s1', s2='s2'):
+    """sum_a sum_b c[s1-d1+a, s2-d2+b] * B2_b(y) * B1_a(x)  (association of the code: inner sum first)."""
+    b1 = B('der1', 'kts1', s1, x, s1 + ' - deg1 + a', 'deg1')
+    b2 = B('der2', 'kts2', s2, y, s2 + ' - deg2 + b', 'deg2')
+    return ('sum_(0, deg1 + 1, lambda a: sum_(0, deg2 + 1, lambda b: coeffs[%s - deg1 + a, %s - deg2 + b] * %s) * %s)'
+            % (s1, s2, b2, b1))
+
+
+def with_spans(x, y, body):
+    return ('let(nu_find_span(kts1, deg1, %s), lambda s1: let(nu_find_span(kts2, deg2, %s), lambda s2: %s))' % (x, y, body))
+
+
+def contraction_loops(outer, inner, acc, io, ii, extra_outer=(), extra_inner=(), suffix=''):
+    """Invariants of the tensor contraction  acc = sum_a (sum_b tc[a,b]*basis2[b]) * basis1[a]  written in place
+    in column 0 of theCoeffs. outer/inner: loop fingerprints; io/ii: their index names."""
+    rows_after = 'forall({io} + 1, deg1 + 1, 0, deg2 + 1, lambda a, b: theCoeffs[a, b] == tc0[a, b])'.format(io=io)
+    return {
+        outer + suffix: dict(
+            ghost={'tc0': 'theCoeffs'},
+            inv=['{acc} == sum_(0, {io}, lambda a: sum_(0, deg2 + 1, lambda b: tc0[a, b] * basis2[b]) * basis1[a])'.format(acc=acc, io=io),
+                 'forall({io}, deg1 + 1, 0, deg2 + 1, lambda a, b: theCoeffs[a, b] == tc0[a, b])'.format(io=io)]
+            + list(extra_outer)),
+        inner + suffix: dict(
+            inv=[rows_after,
+                 'forall(1, deg2 + 1, lambda b: theCoeffs[{io}, b] == tc0[{io}, b])'.format(io=io),
+                 'theCoeffs[{io}, 0] == sum_(0, {ii}, lambda b: tc0[{io}, b] * basis2[b])'.format(io=io, ii=ii)]
+            + list(extra_inner)),
+    }
+
+
+CONTRACTS.update({
+    F + '::nu_eval_spline_2d_scalar': dict(
+        pure=True, returns='float', implements=['spline2d_scalar'],
+        requires=DOMAIN2,
+        ensures=[with_spans('x', 'y', 'result == ' + spline2d('x', 'y'))],
+        loops=contraction_loops('for i in range(deg1 + 1)', 'for j in range(1, deg2 + 1)', 'z', 'i', 'j'),
+    ),
+})
+
+
+def _sfx(n):
+    return '' if n == 0 else ' #%d' % (n + 1)
+
+
+def S_cross(p, q):
+    return with_spans('X[%s]' % p, 'Y[%s]' % q, 'z[%s, %s] == %s' % (p, q, spline2d('X[%s]' % p, 'Y[%s]' % q)))
+
+
+def cross_loops(spans=True, S=S_cross):
+    loops = {}
+    done_rows = 'forall(0, i, 0, len(Y), lambda p, q: %s)' % S('p', 'q')
+    done_cols = 'forall(0, j, lambda q: %s)' % S('i', 'q')
+    for n in range(4):
+        loops['for (i, x) in enumerate(X)' + _sfx(n)] = dict(inv=[done_rows])
+        loops['for (j, y) in enumerate(Y)' + _sfx(n)] = dict(inv=[done_rows, done_cols])
+        loops.update(contraction_loops('for k in range(deg1 + 1)', 'for l in range(1, deg2 + 1)', 'z[i, j]', 'k', 'l',
+                                       extra_outer=[done_rows, done_cols], extra_inner=[done_rows, done_cols,
+                                       'z[i, j] == sum_(0, k, lambda a: sum_(0, deg2 + 1, lambda b: tc0[a, b] * basis2[b]) * basis1[a])'],
+                                       suffix=_sfx(n)))
+    return loops
+
+
+def S_vec(p):
+    return with_spans('x[%s]' % p, 'y[%s]' % p, 'z[%s] == %s' % (p, spline2d('x[%s]' % p, 'y[%s]' % p)))
+
+
+def vector_loops(S=S_vec):
+    loops = {}
+    done = 'forall(0, i, lambda p: %s)' % S('p')
+    for n in range(4):
+        loops['for i in range(len(x))' + _sfx(n)] = dict(inv=[done])
+        loops.update(contraction_loops('for j in range(deg1 + 1)', 'for k in range(1, deg2 + 1)', 'z[i]', 'j', 'k',
+                                       extra_outer=[done], extra_inner=[done,
+                                       'z[i] == sum_(0, j, lambda a: sum_(0, deg2 + 1, lambda b: tc0[a, b] * basis2[b]) * basis1[a])'],
+                                       suffix=_sfx(n)))
+    return loops
+
+
+CONTRACTS.update({
+    F + '::nu_eval_spline_2d_cross': dict(
+        requires=DOMAIN2 + ['shape(z)[0] >= len(X)', 'shape(z)[1] >= len(Y)'],
+        modifies=['z'],
+        ensures=['forall(0, len(X), 0, len(Y), lambda p, q: %s)' % S_cross('p', 'q')],
+        loops=cross_loops(),
+    ),
+    F + '::nu_eval_spline_2d_vector': dict(
+        requires=DOMAIN2 + ['len(y) >= len(x)', 'len(z) >= len(x)'],
+        modifies=['z'],
+        ensures=['forall(0, len(x), lambda p: %s)' % S_vec('p')],
+        loops=vector_loops(),
+    ),
+})
